@@ -16,10 +16,14 @@ esf.EvaluatedStructureFunction.__init__ (kinematic validation), Runner.replace_n
 """
 from __future__ import annotations
 
+import ast
 import copy
 import math
+import os
 
 import numpy as np
+
+from pvc import boot
 
 from pvc.core import ob_eval, ob_smt, guarded, Ob, PROVED, REFUTED, UNDECIDED, parallel
 from pvc.explore import explore
@@ -33,10 +37,37 @@ LEVEL = "proof"
 EXPLICIT = (ValueError, NotImplementedError, RuntimeError)
 
 
+def raised_explicitly(exc):
+    """The exception was created by a ``raise`` statement in yadism's own source (and not by a
+    failing lookup such as list.index / dict[...] inside or below it)."""
+    import linecache
+    import traceback
+
+    tb = exc.__traceback__
+    if tb is None:
+        return True
+    frames = traceback.extract_tb(tb)
+    # innermost frame that belongs to yadism
+    last = frames[-1]
+    fn = os.path.realpath(last.filename)
+    if not fn.startswith(os.path.realpath(boot.SRC)):
+        return False
+    # the statement at that line must be (part of) a raise
+    try:
+        src = open(fn).read()
+        tree = ast.parse(src)
+        for node in ast.walk(tree):
+            if isinstance(node, ast.Raise) and node.lineno <= last.lineno <= getattr(node, "end_lineno", node.lineno):
+                return True
+    except Exception:  # noqa
+        return linecache.getline(fn, last.lineno).strip().startswith("raise")
+    return False
+
+
 def classify(exc):
     if exc is None:
         return "ok"
-    if isinstance(exc, EXPLICIT) and str(exc).strip():
+    if isinstance(exc, EXPLICIT) and str(exc).strip() and raised_explicitly(exc):
         return "explicit-rejection"
     return f"internal:{type(exc).__name__}"
 
@@ -178,7 +209,22 @@ def sec_kinematics(rep):
                     rep.add(Ob(name, "post", UNDECIDED, "engine", 0, f"{type(e).__name__}: {e}"))
                     continue
                 rep.paths += len(paths)
+                from pvc.core import ob_sides
+
+                seen_sides = set()
                 for i, p in enumerate(paths):
+                    # definedness: a division by zero / log of a non-positive number on the way is an
+                    # internal arithmetic error (or a silent inf/nan), not a clear rejection
+                    for o in ob_sides(f"{name}/path{i}", p, [sy.M2target > 0], dedupe=seen_sides):
+                        if o.status == REFUTED:
+                            env = {k: float(v) for k, v in o.inputs.items() if k in ("x", "Q2", "M2target") and not isinstance(v, str)}
+                            o.replay = native_kinematics(kind, tmc, entry, env)
+                            if not o.replay.get("confirmed"):
+                                # the real code rejects this input before reaching the operation
+                                o.status = PROVED
+                                o.detail = "counter-model is rejected explicitly by the real code before the operation: " + str(o.replay.get("observed_native"))[:160]
+                                o.inputs = {}
+                        rep.add(o)
                     if p.exc is not None:
                         v = classify(p.exc)
                         rep.add(ob_eval(f"{name}/path{i}/rejection-is-explicit", not v.startswith("internal"), detail=f"{v}: {p.exc!r}"))
@@ -214,8 +260,11 @@ def native_kinematics(kind, tmc, entry, env):
                 sf.elements[0].get_result()
             else:
                 sf.get_esf(on, kin, use_raw=False).get_result()
-        return {"confirmed": True, "observed_native": f"a result is returned for x={kin['x']}, Q2={kin['Q2']} (TMC={tmc}, M2target={sy.M2target}) without any exception", "cmd": "./check C16 --only kinematics"}
+        valid = 0 < kin["x"] <= 1 and kin["Q2"] > 0 and kin["x"] >= min(H.GRID)
+        return {"confirmed": not valid, "observed_native": f"a result is returned for x={kin['x']}, Q2={kin['Q2']} (TMC={tmc}, M2target={sy.M2target}) without any exception", "cmd": "./check C16 --only kinematics"}
     except Exception as e:  # noqa
+        if classify(e).startswith("internal"):
+            return {"confirmed": True, "observed_native": f"internal error instead of a clear rejection: {type(e).__name__}: {e}", "cmd": "./check C16 --only kinematics"}
         return {"confirmed": False, "observed_native": f"{type(e).__name__}: {e}"}
 
 
@@ -267,7 +316,13 @@ def sec_nans(rep):
 
 def sec_selfcheck(rep, seed):
     # canary: an internal lookup error must be classified as a refutation, an explicit one not
-    ok = classify(KeyError("s")).startswith("internal") and classify(ValueError("x outside")) == "explicit-rejection" and classify(ValueError("")).startswith("internal") and classify(None) == "ok"
+    def lookup_error():
+        try:
+            [1, 2].index(7)
+        except ValueError as e:
+            return e
+
+    ok = classify(KeyError("s")).startswith("internal") and classify(ValueError("x outside")) == "explicit-rejection" and classify(ValueError("")).startswith("internal") and classify(None) == "ok" and classify(lookup_error()).startswith("internal")
     rep.add(Ob("C16/selfcheck/classification-canary", "canary", PROVED if ok else "error", "eval", 0, "KeyError -> internal, ValueError(msg) -> explicit, ValueError('') -> internal"))
 
 
